@@ -156,3 +156,15 @@ func TestVerifC44(t *testing.T) {
 			"and multi-block; overwrites create blob garbage so blob-file rewrite compactions run (listener-confirmed); every value read through Get, "+
 			"iterators (ValueAndErr) and snapshots is compared byte for byte with the model across flushes, compactions, rewrites and reopen.", nil)
 }
+
+// C45: internal scans reproduce the visible state when replayed.
+func TestVerifC45(t *testing.T) {
+	k := Knobs{Name: "C45", Units: 120, RangeKeys: true, Batches: true, Snapshots: true, Maint: true, Ingest: true, Excise: true, ScanInternal: true,
+		NoMerge: true, BigValues: true, ValueSep: true, AuditEvery: 30, NoAutoCompactionsPct: 25}
+	runDeck(t, "C45", "main", k, 200, 4000,
+		"Histories without Merge/SingleDelete (a documented precondition of collapsed internal scans) with open snapshots forcing several versions "+
+			"per key; ScanInternal over random spans cutting range keys and range deletions, on the DB and on snapshots, IncludeObsoleteKeys both "+
+			"ways; the emitted point keys, range deletions and range keys are replayed in sequence-number order into an empty DB (individually or "+
+			"as one batch, flushed or not) whose visible state inside the span must equal the model at the scan's sequence number; a RateLimitFunc "+
+			"returning an error mid-scan must make the scan fail.", nil)
+}
